@@ -46,8 +46,11 @@ func Attribute(m Mismatch, running string) string {
 	case "accepted-invalid":
 		switch {
 		case has("!reuse", "!intx", "reuse-gone", "confuse"):
+			if running == "C01" {
+				return "C01" // a parent counted twice creates value
+			}
 			return "C02"
-		case has("!badsig", "!nosig", "!wrongkey", "!newkeys"):
+		case has("!badsig", "!nosig", "!wrongkey", "!newkeys", "!devother"):
 			return "C03"
 		case has("!plus1", "!minus1", "!fee1", "!tax", "!zero", "block!payout", "!sfwrap", "!scwrap"):
 			return "C01"
@@ -290,6 +293,9 @@ func Shapes() map[string]Params {
 		// Foundation era inside the horizon: the one-off subsidy at height 2, address updates by the Foundation keys
 		"foundation": {MatDelay: 1, AllowH: 3, RequireH: 6, EphH: 4, FoundH: 2, Reward: 500,
 			GenSC: []AbsOut{{600000, "A"}, {1199, "F"}, {2398, "M"}, {1199, "B"}}, GenSF: f},
+		// the developer-address fork inside the horizon: siafunds of the old address "D", new conditions time-locked to height 4
+		"devaddr": {MatDelay: 1, AllowH: 100, RequireH: 101, EphH: 102, FoundH: 100, DevH: 3, DevLock: 4, Reward: 500, GenSC: g,
+			GenSF: []AbsOut{{5000, "A"}, {2000, "D"}, {3000, "D"}}},
 		// the same with v2 from the start: address updates (also to the void address) in the subsidy block itself
 		"foundation2": {MatDelay: 1, AllowH: 0, RequireH: 1, EphH: 0, FoundH: 2, Reward: 500,
 			GenSC: []AbsOut{{600000, "A"}, {1199, "F"}, {2398, "M"}, {1199, "M"}, {1199, "B"}}, GenSF: f},
